@@ -11,6 +11,7 @@
 -/
 import Drx.LinkJs
 import DrxProofs.LinkJsCompose
+import DrxProofs.LinkJsFlow
 namespace DrxProps.C04Link
 open Drx Drx.Spec Drx.Link Drx.LinkJs Drx.Lscr
 
@@ -267,6 +268,83 @@ example : String.ofList (txClassProg ("Object__".toList ++ (toString 0).toList) 
     "class Object__0 extends ObjectBase {\n    startUp(b) {\n        var x;\n\n        x = ((b - (_global.gTotal - 1)) * -((b + 70000)));\n        this.score = !((x <= 300));\n        _global.gTotal = sprite(1).within(sprite((7).concat(x)));\n    }\n\n    finish() {\n        var z;\n\n        z = max(field(3), list(1, this.score, list()));\n        fn_call(startUp(z, symbol('done')));\n        beep();\n        exit();\n    }\n}\n\nfunction startUp(obj, ...args) {\n    return obj.startUp(...args);\n}\nfunction finish(obj, ...args) {\n    return obj.finish(...args);\n}\n" := by
   decide +kernel
 
+/-! ### composition for STRUCTURED handler bodies (and scripts that mix flat and structured handlers) -/
+
+/-- **C04 on the structured fragment**: `JsLinkScriptT s` (decidable, `DrxProofs/LinkJsFlow.lean`) = no factory; every handler is an
+    `on` handler whose body is flat (agent-link's `FragSs`) or structured (agent-link-flow's `FragTs` — `if … then … [else …]`,
+    `repeat while c`, `repeat with <local> = a [down] to b`, nested to any depth — without the one ambiguity `okAmbs`), properties
+    declared at script level, and lies in the JavaScript fragment `JsOkH` (bodies in `JsOkTs`).  For every successful compilation the
+    model parses the chunks (agent-link's container chain `parse_linkg`, agent-link-flow's reconstruction `flow_core`, and the
+    structured stack lemma repeated with `with_result` tracked: `LinkFlowH.structs_allH`) and its `generate_js_code` returns a text
+    that the reader of the JavaScript subset reads as exactly `toJs s`: `if (c) {…} else {…}`, `while (c) {…}`,
+    `for(v = a; v <= b; v++) {…}` nested as in the source, plain scripts and property scripts. -/
+theorem C04_link_all (o : Options) (s : Spec.Script) (c : Compiled) (hf : JsLinkScriptT s = true) (hnum : o.scrNum < 32768)
+    (hc : compile o s = .ok c) (hn : NamesOk c) :
+    ∃ text, modelGenJs c.lscr c.lnam = some text ∧ readJs text = some (toJs o.scrNum s) :=
+  js_link_all o s c hf hnum hc hn.1 hn.2
+
+/-- the flat fragment of `C04_link` lies inside `JsLinkScriptT` -/
+theorem C04_link_all_extends (s : Spec.Script) (hf : JsLinkScript s = true) : JsLinkScriptT s = true := jsLinkScript_T s hf
+
+/-- **C04 on agent-link-flow's structured fragment** `FragScriptT` (every handler structured), handlers in `JsOkH` -/
+theorem C04_link_structured (o : Options) (s : Spec.Script) (c : Compiled) (hT : Drx.LinkFlow.FragScriptT s = true)
+    (hok : JsOkHs s.handlers = true) (hnum : o.scrNum < 32768) (hc : compile o s = .ok c) (hn : NamesOk c) :
+    ∃ text, modelGenJs c.lscr c.lnam = some text ∧ readJs text = some (toJs o.scrNum s) := by
+  refine C04_link_all o s c ?_ hnum hc hn
+  simp only [Drx.LinkFlow.FragScriptT, Bool.and_eq_true, List.all_eq_true, List.isEmpty_iff, Bool.not_eq_true'] at hT
+  simp only [JsLinkScriptT, Bool.and_eq_true, List.all_eq_true, List.isEmpty_iff]
+  refine ⟨⟨hT.1, fun h hh => ?_⟩, hok⟩
+  obtain ⟨⟨⟨h1, h2⟩, h3⟩, h4⟩ := hT.2 h hh
+  simp only [Drx.LinkFlowH.FragHJ, Bool.and_eq_true, Bool.or_eq_true, Bool.not_eq_true', List.all_eq_true]
+  exact ⟨⟨h1, Or.inr ⟨h2, h3⟩⟩, h4⟩
+
+/-- `DrxProps.C04.C04_full` for the model, restricted to the structured fragment -/
+theorem C04_model_partial_all (o : Options) (s : Spec.Script) (c : Compiled) (hf : JsLinkScriptT s = true) (hnum : o.scrNum < 32768)
+    (hn : NamesOk c) (hc : compile o s = .ok c) :
+    ∃ text, modelGenJs c.lscr c.lnam = some text ∧ (readJs text).map (·.map JTop.render) = some ((toJs o.scrNum s).map JTop.render) := by
+  obtain ⟨text, h1, h2⟩ := C04_link_all o s c hf hnum hc hn
+  exact ⟨text, h1, by rw [h2]; rfl⟩
+
+/-- non-vacuity: a property script with a structured handler (`repeat with … down to` > `if … else` with a condition that needs
+    the parentheses of F160, a command call, a call of a handler of the same script; `repeat while` with an infix condition;
+    `return`) and a flat handler -/
+def exAll : Spec.Script :=
+  { factory := [], props := ["pLast".toList], globals := [],
+    handlers := [
+      { name := "countDown".toList, params := ["me".toList, "n".toList], isMethod := false,
+        body := [ .set (.var .loc "total".toList) (.int 0),
+                  .repeatWith (.var .loc "i".toList) (.var .param "n".toList) (.int 1) true
+                    [ .ifThen (.bin .contains (.bin .concat (.bin .mod (.var .loc "i".toList) (.int 2)) (.str "x".toList)) (.str "1".toList))
+                        [ .set (.var .loc "total".toList) (.bin .add (.var .loc "total".toList) (.var .loc "i".toList)) ]
+                        [ .call "beep".toList [],
+                          .call "helper".toList [.var .loc "total".toList, .sym "odd".toList] ] ],
+                  .repeatWhile (.bin .gt (.var .loc "total".toList) (.int 100))
+                    [ .set (.var .loc "total".toList) (.bin .div (.var .loc "total".toList) (.int 2)) ],
+                  .call "return".toList [.var .loc "total".toList] ] },
+      { name := "helper".toList, params := ["a".toList, "b".toList], isMethod := false,
+        body := [ .set (.var .prop "pLast".toList) (.var .param "a".toList), .exit ] } ] }
+
+example : JsLinkScriptT exAll = true := by decide +kernel
+
+/-- it is outside the flat fragment of `C04_link` -/
+example : JsLinkScript exAll = false := by decide +kernel
+
+example : ∃ c, compile {} exAll = .ok c ∧ NamesOk c := by
+  have h : (match compile {} exAll with
+      | .ok c => decide ((∀ n ∈ c.names, asciiName n = true) ∧ c.names.length < 32768)
+      | .error _ => false) = true := by decide +kernel
+  cases hc : compile {} exAll with
+  | error e => rw [hc] at h; cases h
+  | ok c => rw [hc] at h; exact ⟨c, rfl, by simpa [NamesOk] using h⟩
+
+/-- the JavaScript text the theorems predict for the example (cross-checked: the REAL translator prints exactly this text for
+    the compiled chunks, design.d/C04Link.md) -/
+example : String.ofList (txClassProg ("Object__".toList ++ (toString 0).toList) (S "ObjectBase")
+      (exAll.handlers.map (toJsFunc (exAll.handlers.map (·.name)) true))
+      ((exAll.handlers.filter (·.name ≠ "birth".toList)).map fun h => wrapperFunc h.name)) =
+    "class Object__0 extends ObjectBase {\n    countDown(n) {\n        var total;\n        var i;\n\n        total = 0;\n        for(i = n; i >= 1; i--) {\n            if ((i % 2).concat(new LingoString(\"x\")).contains(new LingoString(\"1\"))) {\n                total = (total + i);\n            } else {\n                beep();\n                fn_call(helper(total, symbol('odd')));\n            }\n        }\n        while (total > 100) {\n            total = (total / 2);\n        }\n        return total;\n    }\n\n    helper(a, b) {\n        this.pLast = a;\n        exit();\n    }\n}\n\nfunction countDown(obj, ...args) {\n    return obj.countDown(...args);\n}\nfunction helper(obj, ...args) {\n    return obj.helper(...args);\n}\n" := by
+  decide +kernel
+
 /-! ### the border of the fragment: where model and spec DISAGREE (each confirmed on the real translator; design.d/C04Link.md) -/
 
 /-- the text `generate_js` returns for a node (none if it raises or returns an int) -/
@@ -281,6 +359,17 @@ theorem D1_fixed_F139 :
     jsOut (.leaf .definedProp (.s (S "actorList")) 0) = some "this.actorList" ∧
     String.ofList (txJ (toJsE c0 (.var .prop "actorList".toList))) = "this.actorList" ∧ JsOkE (.var .prop "actorList".toList) = true := by
   refine ⟨by decide +kernel, by decide +kernel, by decide +kernel⟩
+
+/-- F160 (found while stating J5t, repaired in /repo e4a3d4b and followed by the model): a condition whose text STARTS with a
+    parenthesis without being one parenthesised group — `(a + 1) & 2` — was emitted bare by the old test `startswith('(')`; that text
+    is not JavaScript; the repaired test `_is_parenthesized` says no, so the condition gets its own pair and the text reads -/
+theorem F160_fixed :
+    String.ofList (txJ (toJsE c0 (.bin .concat (.bin .add (.var .param "a".toList) (.int 1)) (.int 2)))) = "(a + 1).concat(2)" ∧
+    startsWith (txJ (toJsE c0 (.bin .concat (.bin .add (.var .param "a".toList) (.int 1)) (.int 2)))) (S "(") = true ∧
+    isParenthesized (txJ (toJsE c0 (.bin .concat (.bin .add (.var .param "a".toList) (.int 1)) (.int 2)))) = false ∧
+    readJs "function probe(a) {\n    if (a + 1).concat(2) {\n        x = 1;\n    }\n}\n".toList = none ∧
+    (readJs "function probe(a) {\n    if ((a + 1).concat(2)) {\n        x = 1;\n    }\n}\n".toList).isSome = true := by
+  refine ⟨by decide +kernel, by decide +kernel, by decide +kernel, by decide +kernel, by decide +kernel⟩
 
 /-- D2: the first argument of a `LIST_FUNCTIONS` call, when a symbol, is printed as a global variable -/
 theorem D2_witness :
